@@ -55,7 +55,8 @@ class Holder(HasTraits):
     s = Set(Int)
 
 
-ITEM = st.sampled_from([0, 1, 2, 3, 4, "1", "2", -1, None, {"t": [1]}])
+# (every int has a second raw spelling that the coercing validator maps onto it: collisions of raw forms are frequent)
+ITEM = st.sampled_from([0, 1, 2, 3, 4, "0", "1", "2", "3", "4", 1, 2, "1", "2", -1, None, {"t": [1]}])
 BAD = st.sampled_from([{"l": [1]}, {"d": []}])
 ITEMS = st.lists(st.one_of(ITEM, ITEM, ITEM, ITEM, ITEM, ITEM, ITEM, ITEM, BAD), max_size=4)
 ARGS = st.lists(ITEMS, max_size=3)
